@@ -1058,7 +1058,13 @@ def gen_bounds(rng, problem, kind):
             lb = q4(m - rng.choice([1, 1.5, 2, 3])) if rng.random() < 0.8 else None
             ub = q4(m + rng.choice([1, 1.5, 2, 3])) if rng.random() < 0.8 or lb is None else None
         elif kind == 'active':
-            if k == j_act:
+            if k == j_act and abs(m) > 0.3 and rng.random() < 0.35:
+                # an active bound that is exactly 0 (a falsy value in Python: `u or inf` would drop it)
+                if m > 0:
+                    ub, lb = 0.0, (-rng.choice([1, 2, 4]) if rng.random() < 0.5 else None)
+                else:
+                    lb, ub = 0.0, (rng.choice([1, 2, 4]) if rng.random() < 0.5 else None)
+            elif k == j_act:
                 if rng.random() < 0.5:
                     ub = q4(m - rng.choice([0.375, 0.5, 0.75, 1.0]))
                     lb = ub - rng.choice([1, 2, 4]) if rng.random() < 0.5 else None
